@@ -30,22 +30,50 @@ theorem processWounds_healthy (s : Signed) (ws : List Wound) (t : Tree) (q : Lis
     (h : realWounds ws = []) : processWounds s ws t q = .ok (t, q) :=
   processWounds_allClosed s ws t q ((realWounds_eq_nil ws).mp h)
 
-/-- Every file with a real file wound gets queued exactly once, in order of first appearance; files without a
-    file wound are never rewritten. -/
+/-- Every file with a file wound gets queued exactly once (the queue is duplicate-free and holds every index
+    that has a file wound).  Besides those, the queue holds only files that lie below a directory for which a
+    directory wound was reported: since the repair of finding F15, a directory wound that finds something else
+    standing at the directory's path re-heals everything below it (`healBelow`).
+
+    CHANGED with the repair of F15.  The former statement (`i ∈ q ↔ ∃ w ∈ ws, w.kind = .file ∧ w.index = i`:
+    "files without a file wound are never rewritten") is FALSE for the fixed code, and deliberately so —
+    see `queued_without_file_wound` below for the instance. -/
 theorem queued_iff (s : Signed) (ws : List Wound) (t t' : Tree) (q : List Nat)
     (h : processWounds s ws t [] = .ok (t', q)) :
-    q.Nodup ∧ ∀ i, i ∈ q ↔ ∃ w ∈ ws, w.kind = .file ∧ w.index = i := by
-  obtain ⟨hnd, _, hiff⟩ := processWounds_queue s ws t t' [] q List.nodup_nil h
-  refine ⟨hnd, fun i => ?_⟩
-  rw [hiff i]
-  simp only [List.not_mem_nil, false_or]
+    q.Nodup ∧ (∀ i, (∃ w ∈ ws, w.kind = .file ∧ w.index = i) → i ∈ q) ∧
+      (∀ i ∈ q, (∃ w ∈ ws, w.kind = .file ∧ w.index = i) ∨
+        ∃ w ∈ ws, w.kind = .dir ∧ ∃ p e, s.dirs[w.index]? = some p ∧ s.files[i]? = some e ∧
+          isPrefix p e.1 = true) := by
+  obtain ⟨hnd, _, hsub, hsup⟩ := processWounds_queue s ws t t' [] q List.nodup_nil h
+  refine ⟨hnd, fun i hi => hsub i (.inr hi), fun i hi => ?_⟩
+  rcases hsup i hi with h1 | h1 | h1
+  · cases h1
+  · exact .inl h1
+  · exact .inr h1
 
-/-- The queue exactly: the indices of the file wounds in the order the validator reported them, each kept at
-    its first occurrence only (so the healer rewrites files in order of first appearance). -/
+/-- Without any directory wound the queue is exactly as before the repair: a file is queued iff it has a file
+    wound. -/
+theorem queued_iff_of_no_dir_wound (s : Signed) (ws : List Wound) (t t' : Tree) (q : List Nat)
+    (hnd : ∀ w ∈ ws, w.kind ≠ .dir) (h : processWounds s ws t [] = .ok (t', q)) :
+    q.Nodup ∧ ∀ i, i ∈ q ↔ ∃ w ∈ ws, w.kind = .file ∧ w.index = i := by
+  obtain ⟨h1, h2, h3⟩ := queued_iff s ws t t' q h
+  refine ⟨h1, fun i => ⟨fun hi => ?_, h2 i⟩⟩
+  rcases h3 i hi with h4 | ⟨w, hw, hk, _⟩
+  · exact h4
+  · exact absurd hk (hnd w hw)
+
+/-- The queue exactly, when the validator reported no directory wound: the indices of the file wounds in the
+    order the validator reported them, each kept at its first occurrence only (so the healer rewrites files in
+    order of first appearance).
+
+    CHANGED with the repair of F15: the hypothesis `hnd` is new.  With a directory wound whose directory had been
+    replaced, `healBelow` queues the files below it at that moment — before the files with earlier file wounds
+    that are still waiting in the channel — so the unconditional statement is false for the fixed code (same
+    instance, `queued_without_file_wound`). -/
 theorem queue_order (s : Signed) (ws : List Wound) (t t' : Tree) (q : List Nat)
-    (h : processWounds s ws t [] = .ok (t', q)) :
+    (hnd : ∀ w ∈ ws, w.kind ≠ .dir) (h : processWounds s ws t [] = .ok (t', q)) :
     q = ((ws.filter (fun w => w.kind == .file)).map (·.index)).eraseDups := by
-  rw [processWounds_queue_foldl s ws t t' [] q h, foldl_enqueue]
+  rw [processWounds_queue_foldl s ws t t' [] q hnd h, foldl_enqueue]
   simp only [fileIdx, List.contains_nil, Bool.not_false, List.nil_append]
   rw [List.filter_eq_self.mpr (fun _ _ => rfl)]
 
@@ -74,6 +102,14 @@ example : (match validateAndHeal 2 100 C05Tree.exSigned exWrecked with | .ok t =
 
 example : (match validateAndHeal 2 100 C05Tree.exSigned exWrecked with
       | .ok t => failFastOk 2 100 C05Tree.exSigned t | _ => false) = true := by decide
+
+/-- The instance behind the CHANGED statements of `queued_iff` / `queue_order`: the directory wound alone — the
+    regular file standing at `a` is removed, `a` recreated, and `healBelow("a")` queues `a/f` although the wound
+    list holds no file wound.  (From an actual validation this happens when the entries below were judged
+    healthy THROUGH a symlink standing at the directory's path: Props/C06Restore.lean, `f15_heals`.) -/
+theorem queued_without_file_wound :
+    (match processWounds C05Tree.exSigned [⟨.dir, 0, 0, 0⟩] exWrecked [] with
+     | .ok (_, q) => q | .error _ => []) = [0] := by decide
 
 /-- The hypotheses of `queued_iff` / `queue_order` are satisfiable with a non-empty queue. -/
 example : (match validate 2 100 C05Tree.exSigned exWrecked with
